@@ -15,9 +15,27 @@ pub fn calls() -> u64 {
     CALLS.load(Ordering::SeqCst)
 }
 
+thread_local! {
+    /// a per-thread stream (0 = none): used by explorers that generate on many threads at once
+    static TL_STATE: std::cell::Cell<u64> = const { std::cell::Cell::new(0) };
+}
+
+/// give the calling thread its own seeded stream and draw the thread's `RandomState` keys from it now
+pub fn seed_this_thread(seed: u64) {
+    TL_STATE.with(|c| c.set((seed.wrapping_mul(0x9E3779B97F4A7C15) ^ 0xD1B54A32D192ED03) | 1));
+    let _ = std::collections::hash_map::RandomState::new();
+}
+
 fn next() -> u64 {
     // SplitMix64
-    let mut z = STATE.fetch_add(0x9E3779B97F4A7C15, Ordering::SeqCst).wrapping_add(0x9E3779B97F4A7C15);
+    let tl = TL_STATE.with(|c| {
+        let v = c.get();
+        if v != 0 {
+            c.set(v.wrapping_add(0x9E3779B97F4A7C15) | 1);
+        }
+        v
+    });
+    let mut z = if tl != 0 { tl.wrapping_add(0x9E3779B97F4A7C15) } else { STATE.fetch_add(0x9E3779B97F4A7C15, Ordering::SeqCst).wrapping_add(0x9E3779B97F4A7C15) };
     z = (z ^ (z >> 30)).wrapping_mul(0xBF58476D1CE4E5B9);
     z = (z ^ (z >> 27)).wrapping_mul(0x94D049BB133111EB);
     z ^ (z >> 31)
